@@ -391,7 +391,7 @@ def build_optimized_tables(
     # get priority
     all_elements = [res[0] for res in analysis.values()]
     unique_elements = ufl.algorithms.sort_elements(
-        set(ufl.algorithms.analysis.extract_sub_elements(all_elements))
+        list(dict.fromkeys(ufl.algorithms.analysis.extract_sub_elements(all_elements)))
     )
     element_numbers = {element: i for i, element in enumerate(unique_elements)}
     mt_tables: dict[str | ModifiedTerminal, UniqueTableReferenceT] = {}
